@@ -213,6 +213,31 @@ def walk_error(e):
     return None
 
 
+# exception objects of the kinds helpers raise in the field (network down, hostile arguments): nothing may be
+# reachable from them, whatever they carry
+class _Req:            # stands for requests.PreparedRequest / urllib3 pool objects carried by connection errors
+    def send(self):
+        return "capability"
+
+
+_probe_errors = [KeyError(ctx), AttributeError("no attribute"), OSError(2, "x", str(tmp)), ValueError(Path(tmp)),
+                 RuntimeError(_Req())]
+try:
+    _probe_errors[1].obj = ctx            # what CPython records for a failed attribute access on the context
+except Exception:
+    pass
+_ce = ConnectionError("unreachable")
+_ce.request = _Req()
+_ce.response = None
+_probe_errors.append(_ce)
+for _e in _probe_errors:
+    evaluations += 1
+    bad = walk_error(_e)
+    if bad is not None:
+        fail("luaexec:filter_attribute_access#exception-objects-expose-nothing",
+             f"a {type(_e).__name__} handed to Lua exposes a Python object of type {bad[1]} at {bad[0]}",
+             {"exception": type(_e).__name__, "path": bad[0]}, f"{bad[1]}@{type(_e).__name__}")
+
 nerr = 0
 skipped_helpers = []
 for hname in sorted(helpers_tbl.keys()):
